@@ -93,17 +93,23 @@ Theorem server_live_ranges_disjoint : forall total io logins reserved h,
       io <= a /\ a + n <= total /\ ((i = j /\ a = a' /\ n = n') \/ a + n <= a' \/ a' + n' <= a).
 Proof. intros total io logins reserved h Hl Hio Hres Hwf. exact (server_live_ranges_disjoint_proof total io logins reserved Hl Hio Hres h Hwf). Qed.
 
-(* ---- the allocators a Server builds from its OPTIONS (model/ServerAlloc.v: first_private_bus, _set_client_id,
-   _new_allocators, _new_bus_allocators, _new_buffer_allocators, _next_node_id) ------------------------------
+(* ---- the allocators a Server builds from its OPTIONS and from the server's LOGIN REPLY (model/ServerAlloc.v:
+   first_private_bus, _set_client_id, _new_allocators, _new_bus_allocators, _new_buffer_allocators, _next_node_id,
+   ServerStatusWatcher.max_logins and _handle_login_done) ---------------------------------------------------------
    [wf_opts o]: 0 < max_logins <= 32, hardware channels fit, every kind's reserved count is below its per-client share,
    0 <= initial_node_id <= 0x03FFFFFF  (the options under which the constructors do not raise).
-   For every such o, every client id c < max_logins and every server-level history of alloc(n>=0) / free(any address) on
-   the audio, control and buffer allocators, node-id allocations, _set_client_id(ANY integer) and assignments of new
-   well-formed options: nothing raises and SrvInv holds: the current options are well-formed and the three allocators
-   satisfy AInv and are exactly the ones built for the current client id from some well-formed options (the ones in force
-   at the last accepted _set_client_id), the node allocator is regular with user = client id. *)
-Theorem server_allocators_from_options : forall o c h, wf_opts o -> 0 <= c < max_logins o -> Forall wf_sop h ->
-  exists s0 s outs, new_allocators o c = SOk s0 /\ srun s0 h = SOk (s, outs) /\ SrvInv s.
+   The per-client shares are computed with the status watcher's login count ([eff_logins]: the count of the last login
+   reply, else options.max_logins).  [set_client_id false] / [srun false] = _set_client_id whose guard uses that same count
+   (build/proposed_fixes/C16_client_id_guard.diff); [true] = the guard on options.max_logins.
+   For every well-formed o, every client id c < max_logins and every server-level history of alloc(n>=0) / free(any address)
+   on the three allocators, node-id allocations, _set_client_id(ANY integer), assignments of new options and LOGIN REPLIES
+   (any id, any reported count or none) such that the options the constructors see stay well-formed ([wf_hist]): nothing
+   raises and SrvInv holds: the options as the constructors would see them now are well-formed, the three allocators
+   satisfy AInv and are exactly those built for the current client id from some well-formed options (those in force at the
+   last accepted id), the node allocator is regular with user = client id. *)
+Theorem server_allocators_from_options : forall o c h, wf_opts o -> 0 <= c < max_logins o ->
+  exists s0, new_allocators o None false c = SOk s0 /\
+    (wf_hist false s0 h -> exists s outs, srun false s0 h = SOk (s, outs) /\ SrvInv s).
 Proof. exact srv_reachable_proof. Qed.
 
 (* whatever is live on a server lies in the client's own share of the RIGHT index space, after the RIGHT reserved count:
@@ -126,15 +132,38 @@ Theorem server_clients_of_same_options_disjoint : forall o0 s1 s2 k a1 n1 a2 n2,
   a1 + n1 <= a2 \/ a2 + n2 <= a1.
 Proof. exact built_clients_disjoint. Qed.
 
-(* _set_client_id: an id outside 0 .. options.max_logins-1 changes nothing; an id inside rebuilds all allocators, empty,
-   from the CURRENT options *)
-Theorem set_client_id_refuses_foreign_ids : forall s v, v < 0 \/ max_logins (so s) <= v -> set_client_id s v = SOk s.
+(* _set_client_id: an id outside 0 .. N-1 (N = the count the shares are computed with) changes nothing; an id inside rebuilds
+   all allocators, empty, for the current options and count *)
+Theorem set_client_id_refuses_foreign_ids : forall s v, v < 0 \/ eff_logins s <= v -> set_client_id false s v = SOk s.
 Proof. exact set_client_id_refuses_proof. Qed.
 
-Theorem set_client_id_rebuilds_from_current_options : forall s v, wf_opts (so s) -> 0 <= v < max_logins (so s) ->
-  exists s', set_client_id s v = SOk s' /\ so s' = so s /\ built (so s) v s' /\
+Theorem set_client_id_rebuilds_from_current_options : forall s v, wf_opts (eff_opts s) -> 0 <= v < eff_logins s ->
+  exists s', set_client_id false s v = SOk s' /\ so s' = so s /\ sw_max s' = sw_max s /\ built (eff_opts s) v s' /\
     forall k x n, ~ is_live (get_alloc s' k) x n.
 Proof. exact set_client_id_rebuilds_proof. Qed.
+
+(* the server's reply "you are client id of m" (m may differ from options.max_logins): afterwards the client id is the granted
+   one and every allocator is the one for client id of an m-WAY split -- the reported count is in force BEFORE the allocators
+   are rebuilt *)
+Theorem login_reply_installs_granted_share : forall s id m, inproc s = false -> m <> 0 ->
+  wf_opts (with_logins (so s) m) -> 0 <= id < m ->
+  exists s', login_done false s id (Some m) = SOk s' /\ cid s' = id /\ sw_max s' = Some m /\ so s' = so s /\
+    built (with_logins (so s) m) id s' /\ forall k x n, ~ is_live (get_alloc s' k) x n.
+Proof. exact login_reply_installs_granted_share_proof. Qed.
+
+(* before any reply the two guards are the same test, so everything above holds for the snapshot's _set_client_id offline ... *)
+Theorem guards_agree_offline : forall s v, sw_max s = None -> set_client_id true s v = set_client_id false s v.
+Proof. exact guards_agree_offline. Qed.
+
+(* ... and is refuted after a reply (D7): options.max_logins = 4, the server answers "client 5 of 8": the id is refused, the
+   client keeps the allocators of client 0 of 4 and hands out control bus 0, which is not in the share of client 5 of 8 *)
+Theorem login_refused_by_local_max_logins :
+  exists s0 s outs, wf_opts d7_opts /\ wf_opts (with_logins d7_opts 8) /\
+    new_allocators d7_opts None false 0 = SOk s0 /\
+    srun true s0 [SLogin 5 (Some 8); SAlloc KControl 3 0] = SOk (s, outs) /\
+    cid s = 0 /\ sw_max s = Some 8 /\ outs = [None; Some 0] /\
+    ~ (per_client (with_logins d7_opts 8) KControl * 5 <= 0).
+Proof. exact login_refused_by_local_max_logins_proof. Qed.
 
 (* public reserve() (not called anywhere in sc3): on a reachable state it can raise after having released a LIVE
    block, which the next alloc hands out again; and it cannot reserve a free address of a fresh allocator *)
@@ -241,11 +270,12 @@ Definition example_opts := mkO 68 40 32 2 2 1 0 2 4 1000.
 Example server_options_example :
   alloc_args example_opts KAudio 2 = (16, 1, 36) /\ alloc_args example_opts KControl 3 = (10, 0, 30) /\
   alloc_args example_opts KBuffer 1 = (8, 2, 8) /\
-  match new_allocators example_opts 2 with
-  | SOk s0 => match srun s0 [SAlloc KAudio 3 0; SAlloc KBuffer 1 0; SNode; SSetClient 7; SFree KAudio 37; SSetClient 1; SAlloc KAudio 3 0] with
-              | SOk (s, outs) => (outs, cid s)
-              | SRaise _ => ([], -1) end
-  | SRaise _ => ([], -2) end = ([Some 37; Some 18; Some 134218728; None; None; None; Some 21], 1).
+  match new_allocators example_opts None false 2 with
+  | SOk s0 => match srun false s0 [SAlloc KAudio 3 0; SAlloc KBuffer 1 0; SNode; SSetClient 7; SFree KAudio 37; SSetClient 1; SAlloc KAudio 3 0;
+                                  SLogin 5 (Some 8); SAlloc KControl 2 0; SAlloc KAudio 1 0] with
+              | SOk (s, outs) => (outs, cid s, sw_max s)
+              | SRaise _ => ([], -1, None) end
+  | SRaise _ => ([], -2, None) end = ([Some 37; Some 18; Some 134218728; None; None; None; Some 21; None; Some 25; Some 45], 5, Some 8).
 Proof. vm_compute. repeat split; reflexivity. Qed.
 
 Example wf_example_opts : wf_opts example_opts.
